@@ -689,6 +689,7 @@ type msgRec struct {
 	relVal     uint32
 	dcep       bool
 	tail       bool
+	odd        string // a call that must be rejected / have no effect (C18)
 	stateAtInvoke uint32
 	invokeSeq  int64
 	returnSeq  int64
@@ -778,6 +779,9 @@ func (w *world) write(st *simStream, m *msgRec) {
 	m.returnSeq = call.returnSeq
 	m.returnAt = w.now()
 	m.n, m.err, m.done = n, err, true
+	if err == nil && m.size > 0 && st.ep.cfg.BlockWrite && w.wm != nil {
+		w.wm.checkBlockingWriteLaw(st.ep.side, m)
+	}
 	w.apiEvent(st.ep, "write", fmt.Sprintf("sid=%d msg=%d size=%d n=%d err=%v", st.sid, m.id, m.size, n, err))
 }
 
